@@ -1,11 +1,15 @@
 import HC.Proto.H2Send
+import HC.Extracted.Excepts
 /-!
 # C09 — HTTP/2 flow control is respected; multiplexed delivery is live and ordered
 
 Invariants of the send-path model (`HC/Proto/H2Send.lean`) over **every** operation sequence: any number of streams,
 any interleaving of application writes, the send task's picks (whatever unblocked stream the priority tree hands
-out), WINDOW_UPDATE / SETTINGS / RST_STREAM, application aborts and connection close.
-Each invariant is proved clause by clause (one-step preservation), then lifted to all runs by `HC.inv_runOps`.
+out) and its suspensions inside `_send_data`, WINDOW_UPDATE / SETTINGS / PRIORITY / RST_STREAM, application aborts and
+connection close.  Each invariant is proved clause by clause (one-step preservation), then lifted to all runs.
+
+The only hypothesis on a run is `opOk`: the send task goes to sleep (`park`) only when `next(priority)` raised
+`DeadlockError`, i.e. when no member of the tree is unblocked.
 -/
 namespace HC.Props.C09
 open HC HC.Proto.H2Send HC.Extracted
@@ -19,8 +23,46 @@ macro "step_cases" hs:ident : tactic =>
 /-- finish a per-stream goal about `s'.str j` after `step_cases`: unfold the point update, split on `j = i`, then
     arithmetic / propositional clean-up -/
 macro "upd_finish" : tactic =>
-  `(tactic| (simp only [upd, Str.closeBuf, unblockAll, chunk] at * <;> (repeat' split) <;> (try subst_vars) <;> (try simp_all) <;>
+  `(tactic| (simp only [upd, Str.closeBuf, Str.discard, Str.gone, unblockAll, Guards.sendDataEnds, Guards.bufferComplete] at * <;>
+      (repeat' split) <;> (try subst_vars) <;> (try simp_all) <;>
       (first | done | omega | grind)))
+
+/-! ### the source facts the model's granularity rests on (extracted from the current tree) -/
+
+/-- `Event.set()` / `Event.clear()` never suspend in either worker, `Event.wait()` does: the only suspension points of
+    the send path are the waits and the transport write -/
+theorem atomicity_assumed :
+    Atomic.asyncioEventSetSuspends = false ∧ Atomic.asyncioEventClearSuspends = false ∧ Atomic.asyncioEventWaitSuspends = true ∧
+    Atomic.trioEventSetSuspends = false ∧ Atomic.trioEventClearSuspends = false ∧ Atomic.trioEventWaitSuspends = true := by decide
+
+/-- the statement order inside the pieces of `h2.py` that one model op stands for -/
+theorem statement_order_assumed :
+    Atomic.h2BodyBranch = ["self.priority.unblock", "self.has_data.set", "self.stream_buffers[event.stream_id].push"] ∧
+    Atomic.h2EndBranch = ["self.stream_buffers[event.stream_id].set_complete", "self.priority.unblock", "self.has_data.set",
+                          "self.stream_buffers[event.stream_id].drain"] ∧
+    Atomic.h2ClosedBranch = ["self._reset_abandoned_response", "self._close_stream"] ∧
+    Atomic.h2SendTask = ["next", "self.has_data.wait", "self.has_data.clear", "self._send_data"] ∧
+    Atomic.h2SendDataTry = ["min", "self.connection.local_flow_control_window", "max", "self.stream_buffers[stream_id].pop",
+                            "self.connection.send_data", "self._flush", "self.priority.block", "self.connection.end_stream", "self._flush",
+                            "self.priority.remove_stream"] ∧
+    Atomic.h2BufferPush = ["BufferCompleteError", "self.buffer.extend", "self._is_empty.clear", "len", "self._paused.wait", "self._paused.clear"] ∧
+    Atomic.h2BufferClose = ["self._complete = True", "self.buffer = bytearray()", "await self._is_empty.set()", "await self._paused.set()"] := by
+  decide
+
+/-- the `except` clauses the model's "swallowed" branches stand for -/
+theorem except_clauses_assumed :
+    Excepts.h2SendData = ["StreamClosedError", "KeyError", "ProtocolError", "MissingStreamError"] ∧
+    Excepts.h2StreamSend = ["BufferCompleteError", "KeyError", "MissingStreamError", "ProtocolError"] := by decide
+
+/-- nothing fits only when a window is exhausted (the frame size is positive) -/
+theorem chunk_zero (s : St) (i : Nat) (hm : 0 < s.maxFrame) (h : chunk s i = 0) : (s.str i).window ≤ 0 ∨ s.connWin ≤ 0 := by
+  unfold chunk at h
+  omega
+
+/-- the bytes taken fit both windows -/
+theorem chunk_le (s : St) (i : Nat) : ((chunk s i : Nat) : Int) ≤ max 0 (s.str i).window ∧ ((chunk s i : Nat) : Int) ≤ max 0 s.connWin ∧ chunk s i ≤ s.maxFrame := by
+  unfold chunk
+  omega
 
 /-! ### accounting -/
 
@@ -60,13 +102,38 @@ theorem flow_respected (s : St) (i : Nat) :
   unfold chunk
   omega
 
-/-- … and therefore, by the accounting above, what was sent never exceeds the credit granted while the window the peer
-    advertises is non-negative: `sent = credit − window` on each stream and on the connection -/
+/-- … and that is what the step sends: whatever a `pick` puts on the wire (`connSent` grows by it) is at most
+    `maxFrame`, the stream window and the connection window *before* the step; no other op sends any DATA -/
+theorem frame_within_windows (s s' : St) (o : Op) (hs : step s o = some s') :
+    s'.connSent - s.connSent ≤ s.maxFrame ∧ s.connSent ≤ s'.connSent ∧
+    (∀ i, o = .pick i → ((s'.connSent - s.connSent : Nat) : Int) ≤ max 0 (s.str i).window ∧
+                         ((s'.connSent - s.connSent : Nat) : Int) ≤ max 0 s.connWin ∧
+                         (s'.str i).sent - (s.str i).sent ≤ s'.connSent - s.connSent) ∧
+    ((∀ i, o ≠ .pick i) → s'.connSent = s.connSent) := by
+  cases o
+  case pick i =>
+    have hc := chunk_le s i
+    step_cases hs <;> simp [upd, Str.discard, Str.closeBuf] <;> (try split) <;> simp_all <;> omega
+  all_goals (step_cases hs <;> simp [upd])
+
+/-- … and therefore, by the accounting above, what was sent is the credit granted minus the window the peer still
+    advertises: `sent = credit − window` on each stream and on the connection -/
 theorem sent_is_credit_minus_window (s : St) (h1 : Win s) (h2 : CWin s) (i : Nat) :
     ((s.str i).sent : Int) = (s.str i).credit - (s.str i).window ∧ (s.connSent : Int) = s.connCredit - s.connWin := by
   have := h1 i
   unfold CWin at h2
   omega
+
+/-- the connection window never goes negative (nothing but DATA consumes it) -/
+def CNonneg (s : St) : Prop := 0 ≤ s.connWin
+
+theorem cnonneg_step (s s' : St) (o : Op) (h : CNonneg s) (hs : step s o = some s') : CNonneg s' := by
+  unfold CNonneg at *
+  cases o
+  case pick i =>
+    have hc := chunk_le s i
+    step_cases hs <;> first | exact h | (simp_all; omega)
+  all_goals (step_cases hs <;> first | exact h | (simp_all; omega))
 
 /-! ### scheduling: tree membership, stalls, wake-ups -/
 
@@ -78,17 +145,19 @@ theorem tree_step (s s' : St) (o : Op) (h : Tree s) (hs : step s o = some s') : 
     (refine ⟨?_, ?_⟩ <;> first
       | exact h1
       | exact h2
+      | (simp_all; omega)
       | (intro j hj; have hall := h1; revert hj; upd_finish))
 
 /-- **a stalled stream has no credit**: a buffered stream that is blocked in the priority tree either has nothing to
     send yet, or its stream window or the connection window is exhausted (or the connection is closed) -/
 def Stall (s : St) : Prop := ∀ i, (s.str i).hasBuf = true → (s.str i).blocked = true →
-  ((s.str i).buf = 0 ∧ (s.str i).complete = false) ∨ (s.str i).window ≤ 0 ∨ s.connWin ≤ 0 ∨ s.closed = true
+  ((s.str i).buf = 0 ∧ (s.str i).complete = false) ∨ (s.str i).window ≤ 0 ∨ s.connWin ≤ 0 ∨ s.closed = true ∨ (s.str i).ended = true
 
 theorem stall_step (s s' : St) (o : Op) (h : Stall s) (ht : Tree s) (hs : step s o = some s') : Stall s' := by
   obtain ⟨ht1, ht2⟩ := ht
   intro j
   have hj := h j
+  have hz := chunk_zero s
   cases o <;> step_cases hs <;>
     first
       | exact hj
@@ -107,21 +176,38 @@ theorem sleep_step (s s' : St) (o : Op) (h : Sleep s) (hp : opOk s o) (hs : step
 
 /-! ### END_STREAM exactly once, after everything -/
 
-/-- bytes are only ever dropped from a buffer that is then gone or belongs to a closed connection -/
-def Drop (s : St) : Prop := ∀ i, (s.str i).dropped > 0 → (s.str i).hasBuf = false ∨ s.closed = true
+/-- a sender that is inside `_reset_abandoned_response` has already reset the stream -/
+def Aband (s : St) : Prop := ∀ i, (s.str i).pusher = .inAbandon → (s.str i).libClosed = true
 
-theorem drop_step (s s' : St) (o : Op) (h : Drop s) (hs : step s o = some s') : Drop s' := by
+theorem aband_step (s s' : St) (o : Op) (h : Aband s) (hs : step s o = some s') : Aband s' := by
   intro j
   have hj := h j
   cases o <;> step_cases hs <;>
     first
       | exact hj
-      | (have hall := h; unfold Drop at hall; upd_finish)
+      | (have hall := h; unfold Aband at hall; upd_finish)
 
-/-- END_STREAM has been sent only for a stream whose buffer is gone, complete, empty and un-dropped; a stream whose
-    buffer is gone is never opened again -/
-def Fin (s : St) : Prop := ∀ i, (s.str i).ended = true →
-  (s.str i).hasBuf = false ∧ (s.str i).complete = true ∧ (s.str i).buf = 0 ∧ (s.str i).dropped = 0
+/-- a stream without a buffer holds no bytes -/
+def NoBuf (s : St) : Prop := ∀ i, (s.str i).hasBuf = false → (s.str i).buf = 0
+
+/-- END_STREAM has been sent only for a stream whose buffer was complete, empty and un-dropped -/
+def Fin (s : St) : Prop := ∀ i, (s.str i).ended = true → (s.str i).complete = true ∧ (s.str i).buf = 0 ∧ (s.str i).dropped = 0
+
+/-- bytes are only ever dropped on a closed connection or a reset stream -/
+def Drop (s : St) : Prop := ∀ i, (s.str i).dropped > 0 → s.closed = true ∨ (s.str i).libClosed = true
+
+/-- the send task waits for the END_STREAM flush only of a stream it has ended; an ended stream still has its buffer only
+    during that flush -/
+def Ending (s : St) : Prop := ∀ i, (s.task = .ending i → (s.str i).ended = true) ∧
+  ((s.str i).ended = true → (s.str i).hasBuf = true → s.task = .ending i)
+
+theorem ending_step (s s' : St) (o : Op) (h : Ending s) (hs : step s o = some s') : Ending s' := by
+  intro j
+  have hj := h j
+  cases o <;> step_cases hs <;>
+    first
+      | exact hj
+      | (have hall := h; unfold Ending at hall; upd_finish)
 
 theorem fin_step (s s' : St) (o : Op) (h : Fin s) (hd : Drop s) (hs : step s o = some s') : Fin s' := by
   intro j
@@ -132,35 +218,40 @@ theorem fin_step (s s' : St) (o : Op) (h : Fin s) (hd : Drop s) (hs : step s o =
       | exact hj
       | (have hall := h; have halld := hd; unfold Fin at hall; unfold Drop at halld; upd_finish)
 
-/-- a buffered stream that the library regards as closed stays schedulable until the send task has discarded its buffer -/
-def RstU (s : St) : Prop := ∀ i, (s.str i).hasBuf = true → (s.str i).libClosed = true → (s.str i).blocked = false ∨ s.closed = true
-
-theorem rstU_step (s s' : St) (o : Op) (h : RstU s) (ht : Tree s) (hs : step s o = some s') : RstU s' := by
-  obtain ⟨ht1, ht2⟩ := ht
+theorem nobuf_step (s s' : St) (o : Op) (h : NoBuf s) (hf : Fin s) (he : Ending s) (hs : step s o = some s') : NoBuf s' := by
   intro j
   have hj := h j
+  have hfj := hf j
+  have hej := he j
   cases o <;> step_cases hs <;>
     first
       | exact hj
-      | (have hall := h; unfold RstU at hall; upd_finish)
+      | (have hall := h; have hallf := hf; have halle := he; unfold NoBuf at hall; unfold Fin at hallf; unfold Ending at halle; upd_finish)
 
-/-- registration discipline: a registered stream whose body is not ended has a buffer; a buffer is only complete once
-    the app ended the body or the stream is gone; a stream the library closed is not registered; and — the point —
-    **every unblocked member of the priority tree has a buffer**, so `_send_data` never meets a `KeyError` it cannot
-    handle (its `except` clause indexes `stream_buffers` again) -/
-def Reg (s : St) : Prop := ∀ i,
-  ((s.str i).live = true → (s.str i).appDone = false → (s.str i).hasBuf = true) ∧
-  ((s.str i).hasBuf = true → (s.str i).complete = true → (s.str i).appDone = true ∨ (s.str i).live = false) ∧
-  ((s.str i).libClosed = true → (s.str i).live = false) ∧
-  ((s.str i).inTree = true → (s.str i).blocked = false → (s.str i).hasBuf = true)
-
-theorem reg_step (s s' : St) (o : Op) (h : Reg s) (hp : opOk s o) (hs : step s o = some s') : Reg s' := by
+theorem drop_step (s s' : St) (o : Op) (h : Drop s) (hn : NoBuf s) (hf : Fin s) (ha : Aband s) (hs : step s o = some s') : Drop s' := by
   intro j
   have hj := h j
+  have hnj := hn j
+  have hfj := hf j
+  have haj := ha j
   cases o <;> step_cases hs <;>
     first
       | exact hj
-      | (have hall := h; unfold Reg at hall; simp only [opOk] at hp; upd_finish)
+      | (have hall := h; have halln := hn; have hallf := hf; have halla := ha
+         unfold Drop at hall; unfold NoBuf at halln; unfold Fin at hallf; unfold Aband at halla; upd_finish)
+
+/-- a stream that was opened and has lost its buffer was either ended or reset -/
+def Gone (s : St) : Prop := ∀ i, (s.str i).opened = true → (s.str i).hasBuf = false → (s.str i).ended = true ∨ (s.str i).libClosed = true
+
+theorem gone_step (s s' : St) (o : Op) (h : Gone s) (he : Ending s) (ha : Aband s) (hs : step s o = some s') : Gone s' := by
+  intro j
+  have hj := h j
+  have hej := he j
+  have haj := ha j
+  cases o <;> step_cases hs <;>
+    first
+      | exact hj
+      | (have hall := h; have halle := he; have halla := ha; unfold Gone at hall; unfold Ending at halle; unfold Aband at halla; upd_finish)
 
 /-! ### all together, for every run -/
 
@@ -171,96 +262,257 @@ structure Inv (s : St) : Prop where
   tree : Tree s
   stall : Stall s
   sleep : Sleep s
-  drop : Drop s
+  aband : Aband s
+  nobuf : NoBuf s
   fin : Fin s
-  rstU : RstU s
-  reg : Reg s
+  drop : Drop s
+  ending : Ending s
+  gone : Gone s
 
 theorem inv_init (cw : Int) (mf : Nat) (h : 0 < mf) : Inv (init cw mf) := by
-  constructor <;> simp [init, Acct, Win, CWin, Tree, Stall, Sleep, Drop, Fin, RstU, Reg, deadlock, h]
+  constructor <;> simp [init, Acct, Win, CWin, Tree, Stall, Sleep, Aband, NoBuf, Fin, Drop, Ending, Gone, deadlock, h]
 
 theorem inv_step (s s' : St) (o : Op) (h : Inv s) (hp : opOk s o) (hs : step s o = some s') : Inv s' :=
   ⟨acct_step s s' o h.acct hs, win_step s s' o h.win hs, cwin_step s s' o h.cwin hs, tree_step s s' o h.tree hs,
-   stall_step s s' o h.stall h.tree hs, sleep_step s s' o h.sleep hp hs, drop_step s s' o h.drop hs,
-   fin_step s s' o h.fin h.drop hs, rstU_step s s' o h.rstU h.tree hs, reg_step s s' o h.reg hp hs⟩
+   stall_step s s' o h.stall h.tree hs, sleep_step s s' o h.sleep hp hs, aband_step s s' o h.aband hs,
+   nobuf_step s s' o h.nobuf h.fin h.ending hs, fin_step s s' o h.fin h.drop hs, drop_step s s' o h.drop h.nobuf h.fin h.aband hs,
+   ending_step s s' o h.ending hs, gone_step s s' o h.gone h.ending h.aband hs⟩
 
-/-- a run in which every op meets `opOk` (`park`/`consume` only at deadlock; body events only from live streams) -/
+/-- a run in which every op meets `opOk` (`park` only at deadlock) -/
 abbrev allOk : St → List Op → Prop := allQ opOk
 
 theorem inv_run (ops : List Op) : ∀ (s s' : St), Inv s → allOk s ops → runOk s ops = some s' → Inv s' :=
   run_invariant Inv opOk inv_step ops
 
+/-- the states of all runs from the start of a connection -/
+def Reachable (s : St) : Prop := ∃ cw mf ops, 0 < mf ∧ allOk (init cw mf) ops ∧ runOk (init cw mf) ops = some s
+
+theorem reachable_inv (s : St) (h : Reachable s) : Inv s := by
+  obtain ⟨cw, mf, ops, hmf, hok, hr⟩ := h
+  exact inv_run ops _ s (inv_init cw mf hmf) hok hr
+
+theorem allQ_true (ops : List Op) : ∀ s, allQ (fun _ _ => True) s ops := by
+  induction ops with
+  | nil => intro s; trivial
+  | cons o os ih =>
+    intro s
+    simp only [allQ, true_and]
+    split
+    · trivial
+    · exact ih _
+
+/-- **never more than the connection window allows**: with a non-negative initial connection window, the bytes sent on
+    the connection never exceed the connection credit granted — in every reachable state -/
+theorem conn_sent_le_credit (cw : Int) (mf : Nat) (hmf : 0 < mf) (hcw : 0 ≤ cw) (ops : List Op) (s : St)
+    (hr : runOk (init cw mf) ops = some s) : (s.connSent : Int) ≤ s.connCredit := by
+  have hI : CNonneg s ∧ CWin s := by
+    refine run_invariant (fun s => CNonneg s ∧ CWin s) (fun _ _ => True)
+      (fun s s' o h _ hs => ⟨cnonneg_step s s' o h.1 hs, cwin_step s s' o h.2 hs⟩) ops _ s ?_ ?_ hr
+    · simp [CNonneg, CWin, init, hcw]
+    · exact allQ_true _ _
+  unfold CNonneg CWin at hI
+  omega
+
+/-- SETTINGS never lowers INITIAL_WINDOW_SIZE and streams open with a non-negative window -/
+def creditMonotone : Op → Prop
+  | .settings d => 0 ≤ d
+  | .open_ _ w => 0 ≤ w
+  | _ => True
+
+/-- every stream window is non-negative -/
+def SNonneg (s : St) : Prop := ∀ i, 0 ≤ (s.str i).window
+
+theorem snonneg_step (s s' : St) (o : Op) (h : SNonneg s) (hp : creditMonotone o) (hs : step s o = some s') : SNonneg s' := by
+  intro j
+  have hj := h j
+  have hc := chunk_le s
+  cases o <;> step_cases hs <;>
+    first
+      | exact hj
+      | (have hall := h; unfold SNonneg at hall; simp only [creditMonotone] at hp; upd_finish)
+
+/-- **never more than the stream window allows**: as long as the peer never lowers INITIAL_WINDOW_SIZE (the one event that
+    may legitimately make a window negative, RFC 7540 6.9.2), the bytes sent on a stream never exceed the stream credit
+    granted — in every reachable state -/
+theorem stream_sent_le_credit (cw : Int) (mf : Nat) (ops : List Op) (s : St)
+    (hmono : allQ (fun _ o => creditMonotone o) (init cw mf) ops) (hr : runOk (init cw mf) ops = some s) (i : Nat) :
+    ((s.str i).sent : Int) ≤ (s.str i).credit := by
+  have hI : SNonneg s ∧ Win s := by
+    refine run_invariant (fun s => SNonneg s ∧ Win s) (fun _ o => creditMonotone o)
+      (fun s s' o h hp hs => ⟨snonneg_step s s' o h.1 hp hs, win_step s s' o h.2 hs⟩) ops _ s ?_ hmono hr
+    simp [SNonneg, Win, init]
+  have h1 := hI.1 i
+  have h2 := hI.2 i
+  omega
+
 /-- **in order, complete, one END_STREAM**: in every reachable state, for every stream, what reached the wire plus what
-    is still buffered plus what a close discarded is exactly what the application pushed, and END_STREAM has been sent
-    only after *all* pushed bytes were sent (and then the buffer is gone, so it cannot be sent again) -/
-theorem in_order_complete (cw : Int) (mf : Nat) (hmf : 0 < mf) (ops : List Op) (s : St)
-    (hok : allOk (init cw mf) ops) (hr : runOk (init cw mf) ops = some s) (i : Nat) :
+    is still buffered plus what a close / reset discarded is exactly what the application pushed (bytes leave the buffer
+    from its front only, so what was sent is a prefix of what was pushed), and END_STREAM has been sent only after *all*
+    pushed bytes were sent, none dropped -/
+theorem in_order_complete (s : St) (hr : Reachable s) (i : Nat) :
     (s.str i).pushed = (s.str i).sent + (s.str i).buf + (s.str i).dropped ∧
-    ((s.str i).ended = true → (s.str i).sent = (s.str i).pushed ∧ (s.str i).hasBuf = false) := by
-  have hI := inv_run ops _ s (inv_init cw mf hmf) hok hr
+    ((s.str i).ended = true → (s.str i).sent = (s.str i).pushed ∧ (s.str i).complete = true) := by
+  have hI := reachable_inv s hr
   refine ⟨hI.acct i, fun he => ?_⟩
-  obtain ⟨h1, _, h3, h4⟩ := hI.fin i he
+  obtain ⟨h1, h2, h3⟩ := hI.fin i he
   have := hI.acct i
   exact ⟨by omega, h1⟩
 
+/-- **END_STREAM at most once**: an op that sends END_STREAM for stream `i` (it moves the send task to `ending i`) is
+    never enabled for a stream that was already ended -/
+theorem end_stream_once (s s' : St) (hr : Reachable s) (o : Op) (i : Nat) (hs : step s o = some s')
+    (he : (s.str i).ended = true) (hn : s.task ≠ .ending i) : s'.task ≠ .ending i := by
+  have hE := (reachable_inv s hr).ending i
+  have hnb : (s.str i).hasBuf = false := by
+    cases hb : (s.str i).hasBuf
+    · rfl
+    · exact absurd (hE.2 he hb) hn
+  cases o <;> step_cases hs <;> simp_all <;> (intro heq; subst heq; simp_all)
+
 /-- **no lost wake-up / stall means no credit**, for every reachable state -/
-theorem no_lost_wakeup (cw : Int) (mf : Nat) (hmf : 0 < mf) (ops : List Op) (s : St)
-    (hok : allOk (init cw mf) ops) (hr : runOk (init cw mf) ops = some s) :
+theorem no_lost_wakeup (s : St) (hr : Reachable s) :
     (s.task = .parked → s.hasData = false → ∀ j, (s.str j).inTree = true → (s.str j).blocked = true) ∧
     (∀ i, (s.str i).hasBuf = true → (s.str i).blocked = true → (s.str i).buf > 0 → s.closed = false →
       (s.str i).window ≤ 0 ∨ s.connWin ≤ 0) := by
-  have hI := inv_run ops _ s (inv_init cw mf hmf) hok hr
+  have hI := reachable_inv s hr
   refine ⟨hI.sleep, fun i hb hbl hbuf hc => ?_⟩
-  rcases hI.stall i hb hbl with h | h | h | h
+  rcases hI.stall i hb hbl with h | h | h | h | h
   · omega
   · exact Or.inl h
   · exact Or.inr h
   · simp [hc] at h
+  · have := (hI.fin i h).2.1; omega
 
-/-- **the send task survives**: in every reachable state, whichever unblocked member `next(priority)` hands out has a
-    buffer, so the pick is a defined step (no `KeyError` escapes `_send_data` and kills the task) -/
-theorem send_task_survives (cw : Int) (mf : Nat) (hmf : 0 < mf) (ops : List Op) (s : St)
-    (hok : allOk (init cw mf) ops) (hr : runOk (init cw mf) ops = some s) (i : Nat)
-    (hrun : s.task = .running) (hc : s.closed = false) (ht : (s.str i).inTree = true) (hb : (s.str i).blocked = false) :
-    (step s (.pick i)).isSome = true := by
-  have hI := inv_run ops _ s (inv_init cw mf hmf) hok hr
-  have hbuf := (hI.reg i).2.2.2 ht hb
-  simp only [step]
-  (repeat' split) <;> simp_all
+/-- the send task has nothing it could do: it sleeps on `has_data`, which is clear -/
+def taskQuiescent (s : St) : Prop := s.task = .parked ∧ s.hasData = false
 
-/-- the send task has nothing it could do: it is parked (or gone), or every member is blocked and `has_data` is clear -/
-def taskQuiescent (s : St) : Prop :=
-  s.task = .exited ∨ (s.task = .parked ∧ s.hasData = false)
+/-- **delivered as soon as the windows permit** (liveness as a property of every quiescent state): when the send task is
+    quiescent on an open connection, every stream that was opened, is not reset and has credit (its own window and the
+    connection window are positive) has *nothing* left in its buffer — everything the application wrote is on the wire —
+    and END_STREAM has been sent exactly if the application has ended the body -/
+theorem delivered_when_quiescent (s : St) (hr : Reachable s) (hq : taskQuiescent s) (hc : s.closed = false) (i : Nat)
+    (ho : (s.str i).opened = true) (hl : (s.str i).libClosed = false) (hw : 0 < (s.str i).window) (hcw : 0 < s.connWin) :
+    (s.str i).buf = 0 ∧ (s.str i).sent = (s.str i).pushed ∧ ((s.str i).ended = true ↔ (s.str i).complete = true) := by
+  have hI := reachable_inv s hr
+  have hA := hI.acct i
+  have hD : (s.str i).dropped = 0 := by
+    cases hd : (s.str i).dropped with
+    | zero => rfl
+    | succ n => rcases hI.drop i (by omega) with h | h <;> simp_all
+  cases hb : (s.str i).hasBuf
+  · -- the buffer is gone: the stream was ended (it is not reset)
+    have hbuf := hI.nobuf i hb
+    have he : (s.str i).ended = true := by
+      rcases hI.gone i ho hb with h | h
+      · exact h
+      · simp [hl] at h
+    exact ⟨hbuf, by omega, ⟨fun _ => (hI.fin i he).1, fun _ => he⟩⟩
+  · -- the buffer is there, so the stream is in the tree, hence blocked, hence (having credit) empty and not complete
+    have hbl : (s.str i).blocked = true := hI.sleep hq.1 hq.2 i (hI.tree.1 i hb)
+    rcases hI.stall i hb hbl with h | h | h | h | h
+    · refine ⟨h.1, by omega, ⟨fun he => ?_, fun hcpl => ?_⟩⟩
+      · have := (hI.fin i he).1; simp [h.2] at this
+      · simp [h.2] at hcpl
+    · omega
+    · omega
+    · simp [hc] at h
+    · have := (hI.ending i).2 h hb; simp [hq.1] at this
 
-/-- **live**: when the send task is quiescent on an open connection, every stream that still holds data has no credit,
-    and every stream whose application ended the body and that has credit has had its END_STREAM -/
-theorem live (cw : Int) (mf : Nat) (hmf : 0 < mf) (ops : List Op) (s : St)
-    (hok : allOk (init cw mf) ops) (hr : runOk (init cw mf) ops = some s)
-    (hq : s.task = .parked ∧ s.hasData = false) (hc : s.closed = false) (i : Nat) (hb : (s.str i).hasBuf = true) :
-    ((s.str i).buf > 0 → (s.str i).window ≤ 0 ∨ s.connWin ≤ 0) ∧
-    ((s.str i).complete = true → (s.str i).buf = 0 → (s.str i).window ≤ 0 ∨ s.connWin ≤ 0) := by
-  have hI := inv_run ops _ s (inv_init cw mf hmf) hok hr
-  have hbl : (s.str i).blocked = true := hI.sleep hq.1 hq.2 i (hI.tree.1 i hb)
-  rcases hI.stall i hb hbl with h | h | h | h
-  · exact ⟨fun hp => by omega, fun hcpl _ => by simp [hcpl] at h⟩
-  · exact ⟨fun _ => Or.inl h, fun _ _ => Or.inl h⟩
-  · exact ⟨fun _ => Or.inr h, fun _ _ => Or.inr h⟩
+/-- **a stalled or reset stream does not stop the others**: a stream that holds data and has credit is never left behind —
+    whatever state any other stream is in (stalled at a zero window, reset, abandoned, with a sender waiting), the send
+    task is not quiescent -/
+theorem sibling_progress (s : St) (hr : Reachable s) (hc : s.closed = false) (j : Nat)
+    (hb : (s.str j).hasBuf = true) (hd : 0 < (s.str j).buf) (hw : 0 < (s.str j).window) (hcw : 0 < s.connWin) :
+    ¬ taskQuiescent s := by
+  intro hq
+  have hI := reachable_inv s hr
+  have hbl : (s.str j).blocked = true := hI.sleep hq.1 hq.2 j (hI.tree.1 j hb)
+  rcases hI.stall j hb hbl with h | h | h | h | h
+  · omega
+  · omega
+  · omega
   · simp [hc] at h
+  · have := (hI.fin j h).2.1; omega
 
-/-- **a reset (or stalled) stream does not stop the others**: an op on stream `i` leaves every other stream's state
-    untouched, so whatever was enabled for stream `j` stays enabled apart from the shared connection window -/
-theorem reset_isolated (s s' : St) (i j : Nat) (hij : j ≠ i) (hs : step s (.rst i) = some s') : s'.str j = s.str j := by
-  simp only [step, Option.some.injEq] at hs
-  subst hs
-  simp [upd, hij]
+/-- an op that concerns stream `i` only -/
+def opStream : Op → Option Nat
+  | .open_ i _ | .push i _ | .pushWake i | .end_ i | .drainWake i | .pick i | .pickRaise i | .sent i | .endSent i
+  | .winStream i _ | .rst i | .abandon i | .abandonFin i => some i
+  | _ => none
 
-theorem push_isolated (s s' : St) (i n j : Nat) (hij : j ≠ i) (hs : step s (.push i n) = some s') : s'.str j = s.str j := by
-  step_cases hs <;> simp [upd, hij]
+/-- **frame condition**: an op on stream `i` (its application's writes and waits, its reset, its window update, the send
+    task serving it) leaves the record of every other stream untouched -/
+theorem stream_op_frame (s s' : St) (o : Op) (i j : Nat) (ho : opStream o = some i) (hij : j ≠ i) (hs : step s o = some s') :
+    s'.str j = s.str j := by
+  cases o <;> simp only [opStream, Option.some.injEq, reduceCtorEq] at ho <;> subst ho <;> step_cases hs <;> simp [upd, hij]
+
+/-! ### quiescent rather than spinning -/
+
+/-- **the send task's ops never set `has_data`**: every wake-up is caused by an application or by the reader -/
+theorem task_never_sets_has_data (s s' : St) (o : Op) (ht : o.isTask = true) (hs : step s o = some s') (h : s'.hasData = true) :
+    s.hasData = true := by
+  cases o <;> simp only [Op.isTask] at ht <;> step_cases hs <;> simp_all
+
+/-- **at deadlock the task can only go to sleep, and asleep it does nothing**: with no unblocked member in the tree the
+    only op of a running send task is `park`; a parked task with `has_data` clear has no enabled op at all -/
+theorem quiescent_only_park (s : St) (o : Op) (ht : o.isTask = true) (hd : deadlock s) (hc : s.closed = false) :
+    (s.task = .running → (step s o).isSome = true → o = .park) ∧
+    (s.task = .parked → s.hasData = false → step s o = none) := by
+  unfold deadlock at hd
+  refine ⟨fun hr he => ?_, fun hp hh => ?_⟩
+  · cases o <;> simp [Op.isTask] at ht
+    case park => rfl
+    case pick i =>
+      have h1 := hd i
+      simp only [step] at he
+      cases h2 : (s.str i).inTree <;> cases h3 : (s.str i).blocked <;> simp_all
+    case pickRaise i =>
+      have h1 := hd i
+      simp only [step] at he
+      cases h2 : (s.str i).inTree <;> cases h3 : (s.str i).blocked <;> simp_all
+    all_goals (simp_all [step])
+  · cases o <;> simp [Op.isTask] at ht <;> simp [step, hp, hh]
+
+/-- the send task never gets stuck and never dies: whatever unblocked member `next(priority)` hands out, `_send_data` runs
+    (its `except` clause copes with a missing buffer, a missing tree entry and a closed stream), and each flush it waits
+    for can complete -/
+theorem send_task_total (s : St) (i : Nat) :
+    (s.task = .running → s.closed = false → (s.str i).inTree = true → (s.str i).blocked = false → (step s (.pick i)).isSome = true) ∧
+    (s.task = .sending i → (step s (.sent i)).isSome = true) ∧
+    (s.task = .ending i → (step s (.endSent i)).isSome = true) := by
+  refine ⟨fun h1 h2 h3 h4 => ?_, fun h => ?_, fun h => ?_⟩ <;> simp only [step] <;> (repeat' split) <;> simp_all
+
+/-- weight of the send task's program counter in the termination measure -/
+def pcWeight : TaskPc → Nat
+  | .sending _ => 3 | .ending _ => 2 | .running => 1 | .parked => 0 | .exited => 0
+
+/-- per-stream part of the termination measure: bytes buffered, plus one while the stream is schedulable -/
+def strWeight (x : Str) : Nat := x.buf + (if x.inTree && !x.blocked then 1 else 0)
+
+/-- **no spinning** (termination measure): every op of the send task strictly decreases
+    `4·(buffered bytes + schedulable flag of the stream it serves) + 3·[has_data] + weight(pc)` and touches no other stream —
+    so between two external events the send task takes at most `4·Σ(buf+1) + 4` steps and then sleeps -/
+theorem no_spin_step (s s' : St) (o : Op) (ht : o.isTask = true) (hs : step s o = some s') :
+    (∀ i, opStream o = some i →
+        4 * strWeight (s'.str i) + (if s'.hasData then 3 else 0) + pcWeight s'.task <
+        4 * strWeight (s.str i) + (if s.hasData then 3 else 0) + pcWeight s.task) ∧
+    (opStream o = none → s'.str = s.str ∧
+        (if s'.hasData then 3 else 0) + pcWeight s'.task < (if s.hasData then 3 else 0) + pcWeight s.task) := by
+  cases o <;> simp only [Op.isTask] at ht <;> step_cases hs <;>
+    simp_all [opStream, strWeight, pcWeight, upd, Str.discard, Str.closeBuf] <;> (repeat' split) <;> (try simp_all) <;> (try omega)
 
 -- non-vacuity: two streams, one stalls at a zero stream window, the other is delivered and ended
 example :
-    (runOk (init 65535 16384) [.open_ 1 0, .open_ 3 65535, .push 1 10, .push 3 20000, .end_ 3, .pick 1, .pick 3, .pick 3, .consume,
-      .park, .winStream 1 100, .wake, .pick 1]).map (fun s => ((s.str 1).sent, (s.str 1).blocked, (s.str 3).sent, (s.str 3).ended, s.task)) =
-    some (10, false, 20000, true, .running) := by decide
+    (runOk (init 65535 16384) [.open_ 1 0, .open_ 3 65535, .push 1 10, .push 3 20000, .end_ 3, .pick 1, .pick 3, .sent 3, .pick 3, .sent 3,
+      .endSent 3, .park, .wake, .park, .winStream 1 100, .wake, .pick 1]).map
+        (fun s => ((s.str 1).sent, (s.str 1).blocked, (s.str 3).sent, (s.str 3).ended, (s.str 3).hasBuf, s.task)) =
+    some (10, false, 20000, true, false, .sending 1) := by decide
+
+-- non-vacuity of `delivered_when_quiescent`: the state after that run, quiescent again, with credit on both streams
+example : ∃ s, runOk (init 65535 16384) [.open_ 1 0, .push 1 10, .pick 1, .park, .wake, .park, .winStream 1 100, .wake, .pick 1, .sent 1,
+      .pick 1, .park] = some s ∧ s.task = .parked ∧ s.hasData = false ∧ (s.str 1).opened = true ∧ 0 < (s.str 1).window ∧
+      (s.str 1).buf = 0 ∧ (s.str 1).sent = 10 := by
+  refine ⟨_, rfl, ?_⟩
+  decide
 
 end HC.Props.C09
